@@ -53,6 +53,16 @@ def _ev(kind, ident=None):
     return True
 
 
+def _rej(i):
+    """guard helper: raises a rejection when atom i is false at the current step, else True"""
+    from scenic.core.distributions import RejectionException
+
+    if not _a(i):
+        raise RejectionException("scripted rejection inside guard")
+    return True
+
+
+_script.rej = _rej
 _script.a = _a
 _script.ev = _ev
 _script.now = _now
